@@ -23,7 +23,10 @@ pub fn replay(ctx: &RunCtx, case: &Value) -> Result<Option<Fail>, String> {
     match ctx.prop {
         "C01" => replay_pat(ctx, &c01::prop(false), case),
         "C02" => replay_pat(ctx, &c01::prop(true), case),
-        "C15" => replay_pat(ctx, &c01::prop_cond(), case),
+        "C15" => {
+            let omit = case.get("extra").and_then(|e| e.get("omit_empty_no")).and_then(|b| b.as_bool()).unwrap_or(false);
+            replay_pat(ctx, &diffref::DiffRef { omit_empty_no: omit, ..c01::prop_cond() }, case)
+        }
         _ => Err(format!("no replay for {}", ctx.prop)),
     }
 }
